@@ -57,7 +57,7 @@ impl Prop for P {
     fn meta() -> Meta {
         Meta {
             level: "exploration",
-            rule: "every exported C function: mz_deflate*/mz_inflate* under generated (avail_in, avail_out, flush) schedules, mz_compress/mz_compress2/mz_uncompress, tinfl_decompress/_mem_to_mem/_mem_to_heap, tdefl_compress/_buffer/_mem_to_mem/_mem_to_heap/_mem_to_output, bounds; every buffer handed to C lives in an mmap'ed region that abuts a PROT_NONE page at its end (or at its start), so an access outside the declared range kills the worker (attributed via the journal and confirmed in isolation); oracle: the same schedule through the corresponding Rust call gives identical bytes and status; next_in/avail_in/total_in (and out) move consistently and never beyond what was available; parameter values around the legal ones (level -3..13, method 0..9, window +-8..+-16 and 0, mem_level 0..10, strategy -1..6, flush -1..7) and 27 misuse cases (null stream, null next_in/next_out, null dest_len, stream of the other kind, ended stream, custom zalloc/zfree, null compressor / size pointers / buffers for tdefl_* and tinfl_*) must return an error code / null / 0 with the process alive. Non-trivial = a stream schedule with >= 3 calls of which one had avail_out smaller than the pending output, or a misuse case that passes the first argument check; distinct by case fingerprint",
+            rule: "every exported C function: mz_deflate*/mz_inflate* under generated (avail_in, avail_out, flush) schedules (mz_deflate also after an earlier stream on the same object + mz_deflateReset; tdefl_compress/_buffer also after earlier tdefl_init calls on the same object), mz_compress/mz_compress2/mz_uncompress, tinfl_decompress/_mem_to_mem/_mem_to_heap, tdefl_compress/_buffer/_mem_to_mem/_mem_to_heap/_mem_to_output, bounds; every buffer handed to C lives in an mmap'ed region that abuts a PROT_NONE page at its end (or at its start), so an access outside the declared range kills the worker (attributed via the journal and confirmed in isolation); oracle: the same schedule through the corresponding Rust call gives identical bytes and status; next_in/avail_in/total_in (and out) move consistently and never beyond what was available; parameter values around the legal ones (level -3..13, method 0..9, window +-8..+-16 and 0, mem_level 0..10, strategy -1..6, flush -1..7) and 27 misuse cases (null stream, null next_in/next_out, null dest_len, stream of the other kind, ended stream, custom zalloc/zfree, null compressor / size pointers / buffers for tdefl_* and tinfl_*) must return an error code / null / 0 with the process alive. Non-trivial = a stream schedule with >= 3 calls of which one had avail_out smaller than the pending output, or a misuse case that passes the first argument check; distinct by case fingerprint",
             assumptions: &["a null *decompressor object* passed to tinfl_decompress/tinfl_init (documented expect/unwrap panic) and null size pointers of tinfl_decompress are not in the property's list and are not asserted", "an out-of-range tdefl_flush enum value cannot be passed from Rust without UB and is not attempted"],
             dbg: true,
             simd: false,
